@@ -32,6 +32,8 @@ def run_yaml(text):
 
 
 def check(inp):
+    if inp.get("single"):
+        return check_single(inp)
     try:
         run_yaml(inp["yaml"])
     except SystemExit as e:
@@ -104,7 +106,91 @@ def indent(text, n):
     return "".join(" " * n + l + "\n" for l in text.rstrip("\n").split("\n"))
 
 
+# keys with a fixed structure (ast.clean_dictionary) x wrong-typed values, falsy ones included: "false", 0, an empty list or
+# mapping, an empty string are values too -- the type check must not be skipped for them
+STR_KEYS = ["library", "cxx_header", "language", "namespace", "cpp_if"]
+DICT_KEYS = ["options", "format", "splicer", "patterns", "doxygen"]
+LIST_KEYS = ["declarations", "typemap", "copyright"]
+DECL_STR = ["decl", "cpp_if"]
+DECL_DICT = ["options", "format", "attrs", "fattrs", "fstatements", "splicer", "doxygen"]
+DECL_LIST = ["declarations", "fortran_generic", "cxx_template", "default_arg_suffix"]
+
+
+def typed_candidates():
+    wrong = {"str": ["false", "0", "[]", "{}", "3", "[a]", "{a: b}"], "dict": ["false", "0", "[]", "''", "3", "[1]", "text"],
+             "list": ["false", "0", "{}", "''", "5", "{a: 1}", "text"]}
+    for kind, keys in (("str", STR_KEYS), ("dict", DICT_KEYS), ("list", LIST_KEYS)):
+        for key in keys:
+            for val in wrong[kind]:
+                base = "library: lib\ncxx_header: lib.h\n"
+                if key in ("library", "cxx_header"):
+                    base = "\n".join(l for l in base.split("\n") if not l.startswith(key + ":")) + ("\n" if not base.endswith("\n") else "")
+                rest = "" if key == "declarations" else "declarations:\n- decl: void f()\n"
+                yield {"yaml": base + "%s: %s\n" % (key, val) + rest, "must_accept": False}
+    for kind, keys in (("str", DECL_STR), ("dict", DECL_DICT), ("list", DECL_LIST)):
+        for key in keys:
+            for val in wrong[kind]:
+                head = "- decl: void f(int a)\n" if key != "decl" else "- "
+                line = ("  %s: %s\n" % (key, val)) if key != "decl" else ("decl: %s\n" % val)
+                yield {"yaml": "library: lib\ncxx_header: lib.h\ndeclarations:\n" + head + line, "must_accept": False}
+                yield {"yaml": "library: lib\ncxx_header: lib.h\ndeclarations:\n- decl: class K\n  declarations:\n  " +
+                               head.replace("\n", "\n  ", head.count("\n") - 1 if head.endswith("\n") else 0) +
+                               ("  " + line if key != "decl" else line), "must_accept": False}
+
+
+H_ = "library: lib\ncxx_header: lib.h\n"
+# single descriptions: (yaml, "accept" | "reject" | None)   reject = a diagnostic is REQUIRED (silent acceptance is the failure)
+SINGLES = [
+    (H_ + "splicer_code: [a]\ndeclarations:\n- decl: void f()\n", None),
+    (H_ + "splicer_code: 3\ndeclarations:\n- decl: void f()\n", None),
+    (H_ + "declarations:\n- decl:\n", None),
+    (H_ + "language:\ndeclarations:\n- decl: void f()\n", None),
+    (H_ + "declarations:\n- decl: template<typename T> void g(T a)\n  cxx_template:\n  - instantiation: 3\n", None),
+    (H_ + "declarations:\n- decl: template<typename T> void g(T a)\n  cxx_template:\n  - instantiation:\n", None),
+    (H_ + "declarations:\n- decl: void g(double a)\n  fortran_generic:\n  - decl: 3\n", None),
+    (H_ + "declarations:\n- decl: void g(double a)\n  fortran_generic:\n  - decl:\n", None),
+    (H_ + "declarations:\n- decl: template<typename T> void g(T a)\n  cxx_template:\n  - instantiation: <int> garbage\n", "reject"),
+    (H_ + "declarations:\n- decl: template<typename T> void g(T a)\n  cxx_template:\n  - instantiation: <int>>\n", "reject"),
+    (H_ + "declarations:\n- decl: void g(double a)\n  fortran_generic:\n  - decl: (float a) garbage\n", "reject"),
+    (H_ + "declarations:\n- decl: void g(double a)\n  fortran_generic:\n  - decl: (float a))\n", "reject"),
+    (H_ + "declarations:\n- decl: typedef int T1\n- decl: void f(T1::x a)\n", None),
+    (H_ + "declarations:\n- decl: enum E { A }\n- decl: void f(E::x a)\n", None),
+    (H_ + "declarations:\n- decl: void f(int *a +rank(1), int n +implied(size(a+1)))\n", None),
+    (H_ + "declarations:\n- decl: void f(char *a, int n +implied(len(a//2)))\n", None),
+    (H_ + "declarations:\n- decl: void f(char *a, int n +implied(len_trim(1)))\n", None),
+    (H_ + "declarations:\n- decl: class K\n  declarations:\n  - block: true\n    declarations:\n    - decl: K()\n    - decl: ~K()\n"
+          "    - decl: int get()\n", "accept"),
+    (H_ + "declarations:\n- decl: class K\n  declarations:\n  - block: true\n    declarations:\n    - block: true\n      declarations:\n"
+          "      - decl: K(int n)\n", "accept"),
+]
+
+
+def check_single(inp):
+    want = inp["want"]
+    try:
+        run_yaml(inp["yaml"])
+    except SystemExit as e:
+        if e.code in (0, None):
+            return "silently accepted although it carries text the parser never looked at: %s" % inp["yaml"][:200].replace("\n", " / ") \
+                if want == "reject" else None
+        return "a documented structure is rejected (exit %r): %s" % (e.code, inp["yaml"][:200].replace("\n", " / ")) if want == "accept" else None
+    except RuntimeError as e:
+        return "a documented structure is rejected: %s: %s" % (str(e)[:100], inp["yaml"][:200].replace("\n", " / ")) if want == "accept" else None
+    except Exception as e:
+        tb = traceback.extract_tb(sys.exc_info()[2])
+        where = "%s:%d" % (os.path.basename(tb[-1].filename), tb[-1].lineno) if tb else "?"
+        return "internal %s at %s (%s) for the description: %s" % (type(e).__name__, where, str(e)[:100],
+                                                                  inp["yaml"][:300].replace("\n", " / "))
+    if want == "reject":
+        return "silently accepted although it carries text the parser never looked at: %s" % inp["yaml"][:200].replace("\n", " / ")
+    return None
+
+
 def candidates(seed, around=None):
+    for y, want in SINGLES:
+        yield {"single": True, "yaml": y, "want": want}
+    for c in typed_candidates():
+        yield c
     for (pname, (pre, tmpl)), (cname, (child, ok)) in itertools.product(sorted(PARENTS.items()), sorted(CHILDREN.items())):
         depth = len(tmpl) - len(tmpl.lstrip(" "))
         body = tmpl % indent(child, depth)
